@@ -245,7 +245,7 @@ func c15Run(c *evid.Ctx, cs c15Case) {
 func hooksWait(w *wal.WAL) { hooks.WaitRotation(w, drv.Watchdog) }
 
 func runC15(c *evid.Ctx) {
-	c.Rule("entries whose ENCODED length is placed in neighbourhoods of 0, every 8-byte padding residue, the 64KiB read buffer (frame header included) +-24, the segment size limit +- frame/index/commit overhead, larger than a whole segment, and 64MiB +-k; as alone/first/middle/last of a batch; with 0-3 prefilled entries; segment sizes 512B, 64KiB, 1MiB and the default; oracle: acknowledged => readable and equal in-process and after reopen, refused => log unchanged and still usable, sizes <= 64MiB are never refused; non-trivial = distinct (size class, batch position, segment size, padding residue)",
+	c.Rule("entries whose ENCODED length is placed in neighbourhoods of 0, every 8-byte padding residue, the 64KiB read buffer (frame header included) +-24, the segment size limit +- frame/index/commit overhead, larger than a whole segment, and 64MiB +-k; as alone/first/middle/last of a batch; with 0-3 prefilled entries; segment sizes 512B, 64KiB, 1MiB, the default and 96MiB (so that a 64MiB entry stays in the unsealed tail and is recovered by the scan at the next Open); oracle: acknowledged => readable and equal in-process and after reopen, refused => log unchanged and still usable, sizes <= 64MiB are never refused; non-trivial = distinct (size class, batch position, segment size, padding residue)",
 		"size_cases", "case_classes")
 	rng := rand.New(rand.NewSource(c.Seed))
 	var cases []c15Case
@@ -293,6 +293,15 @@ func runC15(c *evid.Ctx) {
 	var big []c15Case
 	for _, d := range edge {
 		big = append(big, c15Case{Seg: wal.DefaultSegmentSize, Enc: c15MaxEntry + d, Pos: positions[rng.Intn(4)], Class: "64MiB-edge", Prefill: rng.Intn(2), StartIdx: 1})
+	}
+	// the same edge in a segment large enough that the entry does not seal it: it stays in
+	// the unsealed tail and goes through the recovery scan at the next Open
+	unsealed := []int{0, -7}
+	if !q {
+		unsealed = []int{-9, -8, -7, -1, 0, 1}
+	}
+	for _, d := range unsealed {
+		big = append(big, c15Case{Seg: 96 << 20, Enc: c15MaxEntry + d, Pos: positions[rng.Intn(4)], Class: "64MiB-edge-unsealed-tail", Prefill: 1, StartIdx: 1})
 	}
 	if !q {
 		for i := 0; i < 6; i++ {
